@@ -247,6 +247,9 @@ class IdxSeq:
 
 def idxseq(I, v, node=None):
     """Coerce a python/interpreter value to an IdxSeq or return None."""
+    import numpy as _np
+    if isinstance(v, _np.ndarray) and v.ndim == 1 and v.dtype.kind in "iu":
+        v = [int(x) for x in v.tolist()]
     if isinstance(v, (list, tuple)):
         if not all(isinstance(x, (int, SV)) and not isinstance(x, bool) for x in v):
             if any(x is None for x in v):
@@ -290,6 +293,13 @@ def idxseq(I, v, node=None):
     return None
 
 
+def _is_zero(v):
+    if isinstance(v, SV):
+        t = z3.simplify(v.t) if not z3.is_bool(v.t) else None
+        return t is not None and (z3.is_int_value(t) or z3.is_rational_value(t)) and t.as_fraction() == 0 and (v.nan is None or z3.is_false(z3.simplify(v.nan)))
+    return isinstance(v, (int, float)) and not isinstance(v, bool) and v == 0
+
+
 class Numpy:
     """numpy function models; installed into a Lib instance."""
 
@@ -306,6 +316,8 @@ class Numpy:
             fn = getattr(self, "np_" + name, None)
             if fn is not None:
                 T[getattr(np, name)] = fn
+        T[np.linalg.solve] = self.linalg_solve
+        T[np.matmul] = lambda I, a, k, n: self.matmul(I, a[0], a[1], n)
         lib.extra_getattr.append(self.getattr)
         lib.numpy = self
 
@@ -798,7 +810,24 @@ class Numpy:
         if not fancy:
             return self.basic_index(I, a, parts, node)
         if len(fancy) > 1:
-            raise Unsupported("more than one fancy index")
+            # paired integer index arrays a[rows, cols]: element k is a[rows[k], cols[k]]
+            seqs = dict(fancy)
+            if not all(sq.concrete for sq in seqs.values()) or len({sq.length for sq in seqs.values()}) != 1:
+                raise Unsupported("paired fancy indices of symbolic or different lengths")
+            if any(p is None or (isinstance(p, LibObj) and p.kind == "slice") for p in parts) or len(parts) != a.ndim:
+                raise Unsupported("paired fancy indices mixed with slices")
+            L = next(iter(seqs.values())).length
+            src = a.frozen()
+            cells = []
+            for k in range(L):
+                pos = []
+                for d, p in enumerate(parts):
+                    nd = zint(a.shape[d])
+                    t = seqs[d].at(z3.IntVal(k)) if d in seqs else zint(I.index_of(p, node) if isinstance(p, Obj) else p)
+                    I.require("IndexError", z3.And(t >= -nd, t < nd), node)
+                    pos.append(z3.simplify(z3.If(t < 0, t + nd, t)))
+                cells.append(src.get(*pos))
+            return self.from_nested(I, cells, a.kind, (L,))
         # apply the basic part first on a view where the fancy axis is kept whole, then gather
         pos = 0
         axis_in_src = 0
@@ -964,7 +993,26 @@ class Numpy:
             target.write(lambda vidx: True, getter)
             return
         if len(fancy) > 1:
-            raise Unsupported("more than one fancy index in assignment")
+            # paired integer index arrays, e.g. a[np.where(mask)] = v : element k of every sequence addresses one cell
+            seqs = dict(fancy)
+            if not all(sq.concrete for sq in seqs.values()) or len({sq.length for sq in seqs.values()}) != 1:
+                raise Unsupported("paired fancy indices of symbolic or different lengths in assignment")
+            if any(p is None or (isinstance(p, LibObj) and p.kind == "slice") for p in parts) or len(parts) != a.ndim:
+                raise Unsupported("paired fancy indices mixed with slices in assignment")
+            L = next(iter(seqs.values())).length
+            getter = self.value_getter(I, value, (L,), node)
+            for k in range(L):
+                pos = []
+                for d, p in enumerate(parts):
+                    nd = zint(a.shape[d])
+                    if d in seqs:
+                        t = seqs[d].at(z3.IntVal(k))
+                    else:
+                        t = zint(I.index_of(p, node) if isinstance(p, Obj) else p)
+                    I.require("IndexError", z3.And(t >= -nd, t < nd), node)
+                    pos.append(z3.simplify(z3.If(t < 0, t + nd, t)))
+                a.write(lambda vidx, pos=pos: z3.And(*[vi == pp for vi, pp in zip(vidx, pos)]), lambda vidx, k=k: getter((z3.IntVal(k),)))
+            return
         fk, seq = fancy[0]
         basic = [LibObj("slice", start=None, stop=None, step=None) if k == fk else p for k, p in enumerate(parts)]
         view = self.basic_index_view(I, a, basic, node)
@@ -1131,7 +1179,13 @@ class Numpy:
                                   (len(seqs), ln), self.kind_of_dtype(dtype) if dtype is not None else "float")
             elif isinstance(v, SSeq):
                 # sequence of symbolic length whose elements are scalars or tuples of fixed length
-                probe = v.getter(SV(z3.Int("k!probe_arr")))
+                # the element structure is probed at a generic position INSIDE the sequence (an unconstrained position
+                # would make the element function's failure paths for out-of-range positions look reachable)
+                if not I.ctx.branch(zint(v.length) >= 1):
+                    return NDArr.fresh(lambda r: 0, (0,), self.kind_of_dtype(dtype) if dtype is not None else "float")
+                kp = z3.Int(I.ctx.fresh_name("k!probe_arr"))
+                I.ctx.assume(z3.And(kp >= 0, kp < zint(v.length)))
+                probe = v.getter(SV(kp))
                 if isinstance(probe, (tuple, list)):
                     width = len(probe)
                     out = NDArr.fresh(lambda r, c: self._elem_of(I, v.getter(SV(zint(r))), c, width), (v.length, width),
@@ -1658,11 +1712,167 @@ class Numpy:
                     elif I.ctx.entails(z3.Not(t)):
                         t = False
                     else:
-                        raise Unsupported("np.nonzero of a symbolic mask (data dependent shape)")
+                        t = I.ctx.branch(t)          # data-dependent shape: one path per mask pattern
                 if t:
                     keep.append(j)
             return (self.from_nested(I, keep, "int", (len(keep),)),)
+        if arr.ndim == 2 and all(isinstance(d, int) for d in arr.shape):
+            rows, cols = [], []
+            for i in range(arr.shape[0]):
+                for j in range(arr.shape[1]):
+                    e = arr.get(z3.IntVal(i), z3.IntVal(j))
+                    t = I.truth_sym(e if arr.kind == "bool" else I.compare("!=", e, 0, n))
+                    if not isinstance(t, bool):
+                        if I.ctx.entails(t):
+                            t = True
+                        elif I.ctx.entails(z3.Not(t)):
+                            t = False
+                        else:
+                            t = I.ctx.branch(t)
+                    if t:
+                        rows.append(i)
+                        cols.append(j)
+            return (self.from_nested(I, rows, "int", (len(rows),)), self.from_nested(I, cols, "int", (len(cols),)))
         raise Unsupported("np.nonzero / np.where(cond) (data dependent shape)")
+
+    # ------------------------------------------------------------------ dense linear algebra on concrete shapes
+    def dense(self, I, arr, what):
+        """nested Python lists of the elements of an array whose shape is concrete"""
+        arr = self.coerce(I, arr)
+        if arr is None or not all(isinstance(d, int) for d in arr.shape):
+            raise Unsupported(f"{what}: needs an array of concrete shape")
+        return arr, self.tolist(I, arr, None)
+
+    def np_eye(self, I, a, k, n):
+        rows = a[0]
+        cols = a[1] if len(a) > 1 else k.get("M")
+        cols = rows if cols is None else cols
+        kind = self.kind_of_dtype(k.get("dtype"))
+        off = zint(k.get("k", 0))
+        one, zero = (True, False) if kind == "bool" else ((1, 0))
+        return NDArr.fresh(lambda r, c: elem_ite(z3.simplify(zint(c) - zint(r) == off), norm_elem(one, kind), norm_elem(zero, kind), kind),
+                           (as_dim(zint(rows)), as_dim(zint(cols))), kind)
+
+    def np_diag(self, I, a, k, n):
+        arr = self.coerce(I, a[0])
+        if k.get("k", a[1] if len(a) > 1 else 0) != 0:
+            raise Unsupported("np.diag with an offset")
+        if arr.ndim == 1:
+            zero = False if arr.kind == "bool" else 0
+            return NDArr.fresh(lambda r, c: elem_ite(z3.simplify(zint(r) == zint(c)), norm_elem(arr.get(r), arr.kind), norm_elem(zero, arr.kind), arr.kind),
+                               (arr.shape[0], arr.shape[0]), arr.kind)
+        if arr.ndim == 2:
+            if not self.same_dim(I, arr.shape[0], arr.shape[1]):
+                raise Unsupported("np.diag of a non-square matrix")
+            return NDArr.fresh(lambda r: arr.get(r, r), (arr.shape[0],), arr.kind)
+        raise Unsupported("np.diag of ndim > 2")
+
+    def np_delete(self, I, a, k, n):
+        arr, rows = self.dense(I, a[0], "np.delete")
+        axis = k.get("axis", a[2] if len(a) > 2 else None)
+        obj = a[1]
+        if axis != 0:
+            raise Unsupported("np.delete along an axis other than 0")
+        idx = [obj] if isinstance(obj, int) else [x for x in I.iterate(obj)]
+        if not all(isinstance(x, int) for x in idx):
+            raise Unsupported("np.delete with symbolic positions")
+        m = len(rows)
+        idx = {x % m if -m <= x < m else I.raise_exc(IndexError, "np.delete index out of bounds") for x in idx}
+        kept = [r for i, r in enumerate(rows) if i not in idx]
+        return self.from_nested(I, kept, arr.kind, (len(kept),) + tuple(arr.shape[1:]))
+
+    def matmul(self, I, x, y, node):
+        self.note(I)
+        xa, xl = self.dense(I, x, "matmul")
+        ya, yl = self.dense(I, y, "matmul")
+        if xa.ndim == 0 or ya.ndim == 0:
+            I.raise_exc(ValueError, "matmul: input operand does not have enough dimensions")
+        x1, y1 = xa.ndim == 1, ya.ndim == 1
+        if x1:
+            xl = [xl]
+        if y1:
+            yl = [[v] for v in yl]
+        if xa.ndim > 2 or ya.ndim > 2:
+            raise Unsupported("matmul of ndim > 2")
+        inner = len(xl[0]) if xl else xa.shape[-1]
+        if (len(yl) if not y1 else ya.shape[0]) != (xa.shape[-1]):
+            I.raise_exc(ValueError, "matmul: mismatch in core dimension")
+        ncol = ya.shape[1] if not y1 else 1
+        kind = "float" if "float" in (xa.kind, ya.kind) else "int" if xa.kind == ya.kind == "int" else "float"
+        if xa.kind == "bool" or ya.kind == "bool":
+            raise Unsupported("matmul of boolean arrays")
+
+        def dot(r, c):
+            acc = 0
+            for j in range(inner):
+                p, q = xl[r][j], yl[j][c]
+                if _is_zero(p) or _is_zero(q):
+                    # 0 * NaN would be NaN: only skip when the other factor cannot be NaN
+                    other = q if _is_zero(p) else p
+                    if not (isinstance(other, SV) and other.nan is not None and not z3.is_false(z3.simplify(other.nan))):
+                        continue
+                acc = I.binop("+", acc, I.binop("*", p, q, node), node)
+            return acc
+        out = [[dot(r, c) for c in range(ncol)] for r in range(len(xl))]
+        if x1 and y1:
+            return out[0][0]
+        if x1:
+            return self.from_nested(I, out[0], kind, (ncol,))
+        if y1:
+            return self.from_nested(I, [row[0] for row in out], kind, (len(out),))
+        return self.from_nested(I, out, kind, (len(out), ncol))
+
+    def linalg_solve(self, I, a, k, n):
+        """ASSUMED CONTRACT of numpy.linalg.solve(A, b) (a LAPACK routine, outside the verifier's reach): when it returns,
+        the result x has the shape of b and satisfies A @ x == b over the reals, and it is the only such x (A is
+        non-singular, otherwise LinAlgError).  Paths on which no solution exists are dropped by the assumption."""
+        I.ctx.note_assumption("numpy.linalg.solve(A, b): assumed contract - returns the unique x with A @ x == b (reals; singular A raises)")
+        A, Al = self.dense(I, a[0], "linalg.solve")
+        B, Bl = self.dense(I, a[1], "linalg.solve")
+        if A.ndim != 2 or A.shape[0] != A.shape[1]:
+            I.raise_exc(self.np.linalg.LinAlgError, "Last 2 dimensions of the array must be square")
+        m = A.shape[0]
+        b1 = B.ndim == 1
+        if b1:
+            Bl = [[v] for v in Bl]
+        if B.shape[0] != m or B.ndim > 2:
+            I.raise_exc(ValueError, "solve: mismatch in core dimension")
+        ncol = len(Bl[0]) if Bl else 0
+        uid = I.ctx.fresh_name("solve")
+        flags = [v.nan for row in Al + Bl for v in row if isinstance(v, SV) and v.nan is not None]
+        flags = [f for f in flags if not I.ctx.entails(z3.Not(f))]
+        if flags and I.ctx.branch(z3.Or(*flags)):
+            # a NaN in A or b: LAPACK propagates it into the solution; WHICH entries become NaN is not specified here,
+            # so every entry of the result is 'possibly NaN' (free flag) with an unconstrained value
+            X = [[SV(z3.Real(f"{uid}.x{i}_{c}"), z3.Bool(f"{uid}.nan{i}_{c}")) for c in range(ncol)] for i in range(m)]
+            I.ctx.assume(z3.Or(*[v.nan for row in X for v in row]))
+            if b1:
+                return self.from_nested(I, [row[0] for row in X], "float", (m,))
+            return self.from_nested(I, X, "float", (m, ncol))
+        X = [[SV(z3.Real(f"{uid}.x{i}_{c}")) for c in range(ncol)] for i in range(m)]
+        for i in range(m):
+            for c in range(ncol):
+                acc = 0
+                for j in range(m):
+                    if _is_zero(Al[i][j]):
+                        continue
+                    acc = I.binop("+", acc, I.binop("*", Al[i][j], X[j][c], n), n)
+                from .interp import num_pair
+                ta, tb = num_pair(acc, Bl[i][c])
+                I.ctx.assume(ta == tb)
+        reg = getattr(I.ctx, "solves", None)
+        if reg is None:
+            reg = I.ctx.solves = []
+        # solve is a function: the same system gives the same answer
+        from .interp import num_pair as _np2
+        for (A0, X0, B0) in reg:
+            if len(A0) == m and len(B0[0]) == ncol:
+                same = [(_np2(p, q)[0] == _np2(p, q)[1]) for r0, r1 in zip(A0 + B0, Al + Bl) for p, q in zip(r0, r1)]
+                I.ctx.assume(z3.Implies(z3.And(*same), z3.And(*[x0.t == x1.t for r0, r1 in zip(X0, X) for x0, x1 in zip(r0, r1)])))
+        reg.append((Al, X, Bl))
+        if b1:
+            return self.from_nested(I, [row[0] for row in X], "float", (m,))
+        return self.from_nested(I, X, "float", (m, ncol))
 
     def np_array_equal(self, I, a, k, n):
         x, y = self.coerce(I, a[0]), self.coerce(I, a[1])
